@@ -60,7 +60,7 @@ def run(prop, tier, seed):
         c.evaluations += total
         rows_total, macros = 0, set()
         for path, nrows, nent in files:
-            r = tlc_or_die("TraceScores", cfg="TraceScores_oracle.cfg", env={"TRACE_FILE": path, "NEED_V3": "1"}, timeout=7200)
+            r = tlc_or_die("TraceScores", cfg="TraceScores_oracle.cfg", env={"TRACE_FILE": path, "NEED_V3": "1", "NEED_V2": "1"}, timeout=7200)
             c.add_tlc("TraceScores oracle %s" % os.path.basename(path), r)
             if r.distinct != 2 * nrows:
                 raise MachineryError("TLC judged %d of %d rows" % (r.distinct, nrows))
